@@ -142,6 +142,10 @@ func comparePath(clientRaw, stubRaw string) ([]diff, pathObs) {
 			feat = "escaped"
 		}
 		out = append(out, diff{"path/decoded-differs/" + feat, fmt.Sprintf("client path %q (decoded %q) reached the upstream as %q (decoded %q)", clientRaw, cd, stubRaw, sd)})
+	} else if strings.Count(clientRaw, "/") != strings.Count(stubRaw, "/") {
+		// Quantifier audit ("URL path (including escaped bytes)"): an escaped slash is data inside a segment; decoding it on
+		// the way changes the segments the upstream sees (/a%2Fb -> /a/b), although both spellings decode to the same string.
+		out = append(out, diff{"path/escaped-slash-decoded", fmt.Sprintf("client path %q reached the upstream as %q: %%2F was decoded into a segment separator", clientRaw, stubRaw)})
 	} else if obs.canonical && clientRaw != stubRaw {
 		out = append(out, diff{"path/canonical-encoding-rewritten", fmt.Sprintf("client path %q is in canonical encoding but reached the upstream as %q", clientRaw, stubRaw)})
 	}
